@@ -58,6 +58,24 @@ def run(ctx):
         if isinstance(p, ast.Try) and s in p.body:
             hs = p.handlers
             ok = bool(hs)
+            # breadth: what this operation can raise on arbitrary wire bytes must be caught.  The deserializer is a pluggable callable
+            # (pickle.loads by default: TypeError, KeyError, ... on crafted payloads; any class for a user's deserializer) -> Exception
+            t = A.norm(s)
+            need = "Exception" if "self._deserializer(" in t else ("KeyError" if "DocumentNames[" in t else ("UnicodeDecodeError" if ".decode(" in t else "ValueError"))
+            caught = []
+            for h in hs:
+                ht = h.type
+                if isinstance(ht, ast.Name):
+                    mod_defs = [d for d in repo.module(ZM).tree.body if isinstance(d, ast.Assign) and any(isinstance(x, ast.Name) and x.id == ht.id for x in d.targets)]
+                    if mod_defs and isinstance(mod_defs[0].value, (ast.Tuple, ast.List)):
+                        ht = mod_defs[0].value
+                elts = ht.elts if isinstance(ht, (ast.Tuple, ast.List)) else ([ht] if ht is not None else [])
+                caught += [(A.chain(e) or "?").split(".")[-1] for e in elts] if ht is not None else ["BaseException"]
+            verdict, _ = q.hier(repo).match(need, caught)
+            if verdict != "yes":
+                ctx.ob("C33.D2-malformed-frames-dropped", cname(poll, s) + f" catches {need}", False,
+                       f"the handlers around this operation catch {caught} but it can raise any {need} on wire data: such a frame kills the poll loop "
+                       "(every later document is lost) instead of being dropped", nontrivial=True, where=where(poll, s))
             for h in hs:
                 ifs = [x for x in h.body if isinstance(x, ast.If) and A.norm(x.test) == "self._strict"]
                 good = bool(ifs) and any(isinstance(y, ast.Raise) and "Bluesky0MQDecodeError" in A.norm(y) for y in ifs[0].body) and ifs[0].orelse and isinstance(ifs[0].orelse[-1], ast.Continue)
